@@ -66,15 +66,13 @@ theorem edge_inRange {sc : Scene} {g : Grid} {u v : State} {w : Rat} {d : Nat} (
   unfold edge at h
   split at h
   · simp at h
-  · split at h
+  · rename_i v' hm
+    simp only at h
+    split at h
     · simp at h
-    · rename_i v' hm
-      simp only at h
-      split at h
-      · simp at h
-      · simp only [Option.some.injEq, Prod.mk.injEq] at h
-        rw [← h.1]
-        exact move_inRange hd hm
+    · simp only [Option.some.injEq, Prod.mk.injEq] at h
+      rw [← h.1]
+      exact move_inRange hd hm
 
 theorem succ_inRange {sc : Scene} {g : Grid} {u v : State} {w : Rat} (h : (v, w) ∈ succ sc g u) :
     inRange g v := by
